@@ -18,7 +18,7 @@ func init() {
 				Functions: []string{"(*Gateway).queryHandler", "planner.(*CachedPlanner).Plan", "planner.(*CachedPlanner).hash", "planner.SequentialPlanner.Plan", "executor.ParallelExecutor.Execute", "planner.ScrubFields.Clean"}},
 			{Name: "subscriptions-on-cached-plan", Pkg: ".", Files: []string{"root/fed.go", "root/c01.go", "root/ws.go", "root/c17.go"}, Entry: "VerifEvents", Mode: "seq",
 				Quick: map[string]int{"cached": 1, "maxsubs": 2, "maxevents": 1, "quickmerge": 0}, Thorough: map[string]int{"cached": 1, "maxsubs": 2, "maxevents": 2, "quickmerge": 0},
-				Reach: []string{"two subscriptions", "events checked"},
+				Reach:     []string{"two subscriptions", "events checked"},
 				Functions: []string{"(*Gateway).newSubscriptionEntry", "planner.(*CachedPlanner).Plan", "(*subscriptionEntry).Listen", "(*subscriptionEntry).prepareResponse"}},
 		},
 		Assume: []string{
